@@ -526,6 +526,17 @@ where
         offset: &Offset,
     ) -> Result<ResultTextSelection<'store>, StamError> {
         let resource = self.resource(); //courtesy of ResultItem
+        if self.beginaligned_cursor(&offset.begin)? > self.textlen() {
+            return Err(StamError::CursorOutOfBounds(
+                offset.begin,
+                "Begin cursor is out of bounds (relative to the text selection)",
+            ));
+        } else if self.beginaligned_cursor(&offset.end)? > self.textlen() {
+            return Err(StamError::CursorOutOfBounds(
+                offset.end,
+                "End cursor is out of bounds (relative to the text selection)",
+            ));
+        }
         let offset = self.absolute_offset(&offset)?; //turns the relative offset into an absolute one (i.e. offsets in TextResource)
         resource.textselection(&offset)
     }
@@ -729,6 +740,17 @@ where
         &'slf self,
         offset: &Offset,
     ) -> Result<ResultTextSelection<'store>, StamError> {
+        if self.beginaligned_cursor(&offset.begin)? > self.textlen() {
+            return Err(StamError::CursorOutOfBounds(
+                offset.begin,
+                "Begin cursor is out of bounds (relative to the text selection)",
+            ));
+        } else if self.beginaligned_cursor(&offset.end)? > self.textlen() {
+            return Err(StamError::CursorOutOfBounds(
+                offset.end,
+                "End cursor is out of bounds (relative to the text selection)",
+            ));
+        }
         let offset = self.absolute_offset(&offset)?; //turns the relative offset into an absolute one (i.e. offsets in TextResource)
         self.resource().textselection(&offset)
     }
